@@ -662,7 +662,7 @@ fn refs_of_display_names(
 // generators
 
 pub(crate) const SHEET_POOL: &[&str] = &[
-    "Sheet1", "Data", "My Sheet", "Q1-2024", "x", "Summary", "it's", "données", "日本", "A.B", "Sheet 2 (1)",
+    "Sheet1", "Data", "Data (1)", "My Sheet", "Q1-2024", "x", "Summary", "it's", "données", "日本", "A.B", "Sheet 2 (1)",
     "abcdefghijklmnopqrstuvwxyz01234", "abcdefghijklmnopqrstuvwxyz (9)", "1st", "R1C1", "A1", "TRUE", "Hoja1", "s p a c e",
 ];
 pub(crate) const GHOSTS: &[&str] = &["Ghost", "No Such", "data", "SHEET1", "Old"];
@@ -818,7 +818,7 @@ fn gen_new_name(rng: &mut Rng, sp: &Spec, i: usize) -> String {
 
 fn gen_ops(ctx: &Ctx, sink: &mut dyn FnMut(String)) {
     let mut rng = Rng::new(ctx.seed ^ 0xC17);
-    let n = if ctx.tier == Tier::Quick { 400 } else { 12_000 };
+    let n = if ctx.tier == Tier::Quick { 250 } else { 6_000 };
     // the confirmed witness of F17a first
     let w = Spec {
         lang: "en".into(),
@@ -844,8 +844,14 @@ fn gen_ops(ctx: &Ctx, sink: &mut dyn FnMut(String)) {
 }
 
 pub(crate) fn emit(sp: &Spec, op: &Op, level: &str, sink: &mut dyn FnMut(String)) {
+    emit_with(sp, "c17", &op.encode(), level, "", sink)
+}
+
+/// `<suite> <op> <level> <spec> <sheets> <formulas> <names><extra>`; nothing is emitted when the
+/// implementation refuses to build the workbook
+pub(crate) fn emit_with(sp: &Spec, suite: &str, op: &str, level: &str, extra: &str, sink: &mut dyn FnMut(String)) {
     if let Ok(m) = sp.build() {
-        sink(format!("c17 {} {} {} {}", op.encode(), level, sp.encode(), state_str(&m, false)));
+        sink(format!("{suite} {op} {level} {} {}{extra}", sp.encode(), state_str(&m, false)));
     }
 }
 
